@@ -167,8 +167,8 @@ def jobs(tier):
             J.append(j)
     for name, t, numeric in (('int', 'CAT_VAR_INT_DEC', True), ('uint', 'CAT_VAR_UINT_DEC', True), ('hex', 'CAT_VAR_NUM_HEX', True), ('bufhex', 'CAT_VAR_BUF_HEX', False), ('string', 'CAT_VAR_BUF_STRING', False)):
         for wo in (False, True):
-            ds = 4
-            cap = 24
+            ds = 4 if numeric else (16 if name == 'bufhex' else 8)
+            cap = 24 if numeric else (40 if name == 'bufhex' else 24)
             J.append({'id': 'L2.%s_%s' % ('writeonly' if wo else 'roundtrip', name), 'props': ['C08', 'C03'] if wo else ['C07', 'C03'], 'harness': 'l2_roundtrip.c', 'dfcc': False,
                       'function': 'format_*/parse_* (%s)' % name, 'replace': [], 'loop_contracts': False,
                       'defines': ['RT_TYPE=' + t, 'RT_DS=%d' % ds, 'RT_CAP=%d' % cap] + (['RT_WRITE_ONLY'] if wo else []), 'expect': [],
